@@ -273,6 +273,8 @@ class SElem:
     def __rsub__(self, o): return self._bin(o, "subtract", True)
     def __mul__(self, o): return self._bin(o, "multiply")
     def __rmul__(self, o): return self._bin(o, "multiply", True)
+    def __truediv__(self, o): return self._bin(o, "true_divide")
+    def __rtruediv__(self, o): return self._bin(o, "true_divide", True)
     def __eq__(self, o): return self._bin(o, "equal")
     def __ne__(self, o): return self._bin(o, "not_equal")
     def __lt__(self, o): return self._bin(o, "less")
@@ -409,7 +411,8 @@ def apply_binary(name, a, b):
         if name in _BV_BIN:
             return _BV_BIN[name](a, b)
         raise Unsupported(f"bit-vector ufunc {name}")
-    if "elem" in (ka, kb):
+    if "elem" in (ka, kb) or name == "true_divide":
+        # true division always yields a float: an uninterpreted function of the two operands embedded into the element sort
         a, b = coerce_term(a, "elem"), coerce_term(b, "elem")
         rs = z3.BoolSort() if name in COMPARISONS or name.startswith("logical_") else ElemSort
         return UF("U_" + name, ElemSort, ElemSort, rs)(a, b)
@@ -463,6 +466,11 @@ def apply_unary(name, a):
 def result_dtype_binary(name, da, db):
     if name in COMPARISONS or name.startswith("logical_"):
         return _np.dtype(bool)
+    if name == "true_divide":
+        try:
+            return _np.result_type(da, db, _np.float16) if _np.dtype(da).kind == "f" or _np.dtype(db).kind == "f" else _np.dtype(_np.float64)
+        except Exception:
+            return _np.dtype(_np.float64)
     try:
         return _np.result_type(da, db)
     except Exception:
@@ -787,6 +795,8 @@ class SymArr:
     def __mul__(self, o): return self._b(o, "multiply")
     def __rmul__(self, o): return self._b(o, "multiply", True)
     def __floordiv__(self, o): return self._b(o, "floor_divide")
+    def __truediv__(self, o): return self._b(o, "true_divide")
+    def __rtruediv__(self, o): return self._b(o, "true_divide", True)
     def __rfloordiv__(self, o): return self._b(o, "floor_divide", True)
     def __mod__(self, o): return self._b(o, "remainder")
     def __rmod__(self, o): return self._b(o, "remainder", True)
